@@ -473,12 +473,31 @@ def _model_for_path(st: State, timeout_ms: int):
     return None
 
 
+def string_facts(st: State) -> list:
+    """Ground facts about the uninterpreted string predicates (startswith, endswith, ...) with literal arguments: on every
+    interned literal the predicate has its real value."""
+    from .builtins_model import STRPREDS
+    from .values import STR
+
+    out = []
+    for (fname, args) in list(STRPREDS):
+        fn = z3.Function("str_" + fname, *([z3.IntSort()] * (1 + len(args))), z3.BoolSort())
+        codes = [STR.lit(x) for x in args]
+        for l, code in list(STR.codes.items()):
+            try:
+                v = bool(getattr(l, fname)(*args))
+            except Exception:
+                continue
+            out.append(fn(z3.IntVal(code), *codes) == z3.BoolVal(v))
+    return out
+
+
 def _discharge(name: str, st: State, goal, timeout_ms: int, pi: int) -> OblResult:
     t0 = time.time()
     goal_s = z3.simplify(goal)
     if z3.is_true(goal_s):
         return OblResult(name, "discharged", "simplify", 0.0, path=pi)
-    hyps = list(st.pc)
+    hyps = list(st.pc) + string_facts(st)
     key = (len(st.counts), len(st.pc))
     cached = getattr(st, "_ax_cache", None)
     if cached is not None and cached[0] == key:
